@@ -480,7 +480,8 @@ class NestedDictRAMDataStore(datastore.DataStore):
           collections.defaultdict(list)
       )
       for md in copy.deepcopy(trial_metadata):
-        split_metadata[md.trial_id].append(md)
+        # '02' and '2' name the same Trial: group under the canonical id.
+        split_metadata[str(int(md.trial_id))].append(md)
       # Check that every Trial exists before anything is written, so that a
       # failed update changes nothing.
       for trial_id in split_metadata:
